@@ -692,6 +692,26 @@ fn run_public(report: &mut Report, rng: &mut HRng, n: usize, class: Class, seed:
         if let Err(e) = reduction_ok(sq, &tsq) {
             ctx.fail("wrong_sq_norm_sum", 0, sq, e);
         }
+        // the statistic built on this reduction is evaluated where the second vector is almost minus the first (whitened
+        // position and gradient of a Gaussian): a sum of squares of small residuals, accurate to rounding as well
+        if vs[0].iter().all(|x| x.is_finite() && x.abs() < 1e150) {
+            for scale in [1e-6f64, 1e-12, 0.0] {
+                let y: Vec<f64> = (0..n)
+                    .map(|i| {
+                        let x = vs[0][i];
+                        if scale == 0.0 { -x * (1.0 + f64::EPSILON * (i % 4) as f64) } else { -x + scale * x.abs() * ((i % 5) as f64 - 2.0) }
+                    })
+                    .collect();
+                let yc = col(&mut math, &y);
+                let sq2 = math.sq_norm_sum(&c[0], &yc);
+                let t: Vec<(f64, f64)> = (0..n).map(|i| (vs[0][i] + y[i], vs[0][i] + y[i])).collect();
+                if let Err(e) = reduction_ok(sq2, &t) {
+                    ctx.fail("wrong_sq_norm_sum_of_residuals", 0, sq2, e);
+                    break;
+                }
+                ctx.report.eval();
+            }
+        }
         // prods3 on classes without catastrophic (p1+p2)-n1 vs p1-n1+p2 ambiguity only
         if matches!(class, Class::Uniform | Class::Ones | Class::SignedZeros | Class::WithNan | Class::WithInf) {
             for (res, xi, name) in [(p3a, 3usize, "wrong_prods3_first"), (p3b, 4usize, "wrong_prods3_second")] {
@@ -824,19 +844,27 @@ fn run_public(report: &mut Report, rng: &mut HRng, n: usize, class: Class, seed:
     }
     // low-rank application: (I + U (diag(vals) - I) U^T) rhs for ranks 0..=min(n,4) and n
     if matches!(class, Class::Uniform | Class::Ones | Class::WithNan | Class::WithInf | Class::SignedZeros) {
+        // one math object sees ranks going up and then down again (scratch space is reused between calls)
         let mut ranks: Vec<usize> = (0..=n.min(4)).collect();
         if n > 4 && n <= 24 {
             ranks.push(n);
         }
+        ranks.extend((1..n.min(4)).rev());
         for rank in ranks {
             let cols = crate::util::random_orthonormal(rng, n, rank);
             let vals: Vec<f64> = (0..rank).map(|_| rng.log_range(0.05, 20.0)).collect();
             let vecs = math.new_eig_vectors(cols.iter().map(|c| &c[..]));
             let valv = math.new_eig_values(&vals);
             let mut dest = col(&mut math, &vec![sentinel(); n]);
-            math.apply_lowrank_transform(&vecs, &valv, &c[0], &mut dest);
             let mut inpl = col(&mut math, &vs[0]);
-            math.apply_lowrank_transform_inplace(&vecs, &valv, &mut inpl);
+            if let Err(p) = crate::util::guard(|| {
+                math.apply_lowrank_transform(&vecs, &valv, &c[0], &mut dest);
+                math.apply_lowrank_transform_inplace(&vecs, &valv, &mut inpl);
+            }) {
+                let mut ctx = mk!("lowrank", &mut *report);
+                ctx.fail("panic", 0, f64::NAN, format!("no panic (rank {rank} after other ranks on the same math object): {p}"));
+                break;
+            }
             let (dest, inpl) = (rd(&mut math, &dest), rd(&mut math, &inpl));
             let mut ctx = mk!("lowrank", &mut *report);
             inputs_unchanged!(ctx, 0);
